@@ -20,6 +20,8 @@ for prop in sorted(os.listdir(os.path.join(V, "seeded"))):
         def cell(t):
             if t not in r:
                 return "-"
+            if r[t]["exit"] == 0 and "not a violation of" in notes.get(mid, "") + notes.get(mid, "").replace("outside C", "not a violation of C"):
+                return "out of scope"
             return {1: "caught", 0: "MISSED"}.get(r[t]["exit"], "exit %s" % r[t]["exit"])
         key = ""
         for t in ("quick", "thorough"):
@@ -33,6 +35,8 @@ s = open(p).read()
 a = s.index("<!-- SEEDED-TABLE-BEGIN -->") + len("<!-- SEEDED-TABLE-BEGIN -->")
 b = s.index("<!-- SEEDED-TABLE-END -->")
 n = sum(1 for k, v in res.items() if v.get("caught_quick"))
-head = "\n%d kept seeded changes; %d caught by the quick tier of their property's check.\n\n" % (len(rows) - 2, n)
+oos = sum(1 for r_ in rows if "| out of scope |" in r_)
+head = "\n%d kept seeded changes; %d caught by the quick tier of their property's check%s.\n\n" % (
+    len(rows) - 2, n, "" if not oos else "; %d do not violate their property as stated (see their note) and are not caught" % oos)
 open(p, "w").write(s[:a] + head + "\n".join(rows) + "\n" + s[b:])
 print(head.strip())
